@@ -1,3 +1,4 @@
+#![allow(unexpected_cfgs)] // cfg(callbag_verif): verification hooks, see src/verif_hooks.rs
 //! # Rust implementation of the [callbag spec][callbag-spec] for reactive/iterable programming
 //!
 //! Basic [callbag][callbag-spec] factories and operators to get started with.
